@@ -426,3 +426,94 @@ def s_builder_call(ctx):
 SCENARIOS.append(Scenario("C18.builder.call", s_builder_call, F(GB + "call"),
                           trusted=["ir.node(...) creates a node with the given domain / op_type / overload / inputs / outputs (onnx_ir)",
                                    "BuilderBase.call_op cannot set an overload (it has no such parameter)"]))
+
+
+def s_sequential_naming(ctx):
+    """Sequential: children are called THROUGH the container (Module.__call__ pushes the container's own name, then each
+    child pushes its index): the parameter of child i is registered as root.name + '.' + '<attr>.<i>.<param>' =
+    root.name + '.' + its state_dict key — however the container was populated, also when nested in / around a ModuleList."""
+    from onnxscript.nn import _module, _parameter, _module_list, _sequential
+    I = Interp(ctx)
+    r, a, p = z3.String("root_name"), z3.String("seq_attr"), z3.String("param_attr")
+    for t in (r, a, p):
+        ctx.assume(z3.And(z3.Length(t) > 0, z3.Not(z3.Contains(t, z3.StringVal(".")))))
+    graph = SObj(object, "graph")
+    graph.fields["initializers"] = {}
+    gb = new_builder(I, (), graph)
+    op = SObj(object, "op")
+    op.fields["builder"] = gb
+
+    def mk(cls, *args):
+        m = SObj(cls, cls.__name__.lower())
+        I.call(I.getattr(m, "__init__"), list(args))
+        return m
+    root = mk(_module.Module, SStr(r))
+    leaf = mk(_module.Module, None)
+    param = SObj(_parameter.Parameter, "param")
+    param.fields.update(name=None, const_value=Opaque("data"), _realized=False)
+    I.call(I.getattr(leaf, "__setattr__"), [SStr(p), param])
+
+    def f_leaf(op_, x):
+        raise AssertionError
+    I.models[f_leaf] = lambda interp, op_, x: x
+    leaf.fields["forward"] = f_leaf
+    other = mk(_module.Module, None)          # a parameter-less sibling in front (index 0), the leaf is index 1
+
+    def f_other(op_, x):
+        raise AssertionError
+    I.models[f_other] = lambda interp, op_, x: x
+    other.fields["forward"] = f_other
+    SQ, ML = _sequential.Sequential, _module_list.ModuleList
+    how = ["constructor_then_attach", "attach_then_append", "sequential_inside_sequential", "sequential_inside_module_list"][ctx.choose(4, "how the container is built")]
+    ctx.cover("sequential." + how)
+    entry = None   # what root.forward calls
+    if how == "constructor_then_attach":
+        sq = mk(SQ, other, leaf)
+        I.call(I.getattr(root, "__setattr__"), [SStr(a), sq])
+        key, entry = z3.Concat(a, z3.StringVal(".1."), p), sq
+    elif how == "attach_then_append":
+        sq = mk(SQ, other)
+        I.call(I.getattr(root, "__setattr__"), [SStr(a), sq])
+        I.call(I.getattr(sq, "append"), [leaf])
+        key, entry = z3.Concat(a, z3.StringVal(".1."), p), sq
+    elif how == "sequential_inside_sequential":
+        inner = mk(SQ, other, leaf)
+        sq = mk(SQ, inner)
+        I.call(I.getattr(root, "__setattr__"), [SStr(a), sq])
+        key, entry = z3.Concat(a, z3.StringVal(".0.1."), p), sq
+    else:
+        inner = mk(SQ, other, leaf)
+        ml = mk(ML, [inner])
+        I.call(I.getattr(root, "__setattr__"), [SStr(a), ml])
+        key, entry = z3.Concat(a, z3.StringVal(".0.1."), p), inner   # a ModuleList is iterated by the caller: root calls its element
+
+    def f_root(op_):
+        raise AssertionError
+    I.models[f_root] = lambda interp, op_: interp.call(interp.getattr(entry, "__call__"), [op_, Opaque("x")])
+    root.fields["forward"] = f_root
+    try:
+        I.call(I.getattr(root, "__call__"), [op])
+    except PyRaise as e:
+        ctx.check("C18.nn.sequential.call_returns_normally", False, CL_NAME)
+        return
+    inits = graph.fields["initializers"]
+    ok = len(inits) == 1 and list(inits.values())[0] is param
+    ctx.check("C18.nn.sequential.parameter_realized_exactly_once", ok, CL_NAME)
+    if not ok:
+        return
+    init_name = term(list(inits.keys())[0])
+    sd = I.call(I.getattr(root, "state_dict"), [])
+    ok = isinstance(sd, dict) and len(sd) == 1
+    ctx.check("C18.nn.sequential.state_dict_has_one_key", ok, CL_NAME)
+    if not ok:
+        return
+    k = term(list(sd.keys())[0])
+    ctx.check("C18.nn.sequential.state_dict_key_is_the_indexed_attribute_path", k == key, CL_NAME)
+    ctx.check("C18.nn.sequential.initializer_name_is_root_name_dot_state_dict_key", init_name == z3.Concat(r, z3.StringVal("."), k), CL_NAME)
+    ctx.check("C18.nn.sequential.scope_stack_balanced", gb.fields["_scope_stack"] == [], CL_NAME)
+
+
+SCENARIOS.append(Scenario("C18.nn.sequential_naming", s_sequential_naming,
+                          [("onnxscript/nn/_sequential.py", "Sequential.__init__"), ("onnxscript/nn/_sequential.py", "Sequential._register_child"),
+                           ("onnxscript/nn/_sequential.py", "Sequential._set_name"), ("onnxscript/nn/_sequential.py", "Sequential.forward")],
+                          assumptions=["tree shapes: root -> Sequential(other, leaf), Sequential(Sequential(other, leaf)), ModuleList([Sequential(other, leaf)]); names symbolic"]))
